@@ -1313,3 +1313,66 @@ func TestVerifC12(t *testing.T) {
 	o.verdict("C12", "assets", what == "", true, "assets", map[string]interface{}{"what": what})
 	o.stat("C12", map[string]interface{}{"loads": cnt, "trees": nTrees})
 }
+
+// ---------------------------------------------------------------------------
+// stage `clean` / `loadkey`: filepath.Clean, filepath.Rel and the key derivation of LoadLicenses
+// against the Lean model LC/Model/LoadPath (C12's tie for the path arithmetic)
+
+func vloadKeyImpl(dir string, names []string) string {
+	p := dir
+	for _, n := range names {
+		p = filepath.Join(p, n)
+	}
+	rel, err := filepath.Rel(dir, p)
+	if err != nil {
+		return "err"
+	}
+	seg := strings.Split(rel, string(os.PathSeparator))
+	if len(seg) < 3 {
+		return "skip"
+	}
+	return "key:" + hxs(seg[0]) + "|" + hxs(seg[1]) + "|" + hxs(seg[2])
+}
+
+func TestVerifPath(t *testing.T) {
+	o := newVout()
+	defer o.close()
+	r := newVrand(vseed() + 121)
+	n := 400
+	if vthorough() {
+		n = 40000
+	}
+	pieces := []string{"/", "/", "//", ".", "..", "a", "b", "corpus", "x.y", "...", " ", "é"}
+	names := []string{"License", "MIT", "a.txt", "Header", "x", "..a", "a..", "b.c"}
+	for i := 0; i < n; i++ {
+		rr := r.fork(uint64(i))
+		var sb strings.Builder
+		for k := 0; k < 1+rr.intn(7); k++ {
+			sb.WriteString(pieces[rr.intn(len(pieces))])
+		}
+		p := sb.String()
+		o.corr("clean", fmt.Sprintf("c%d", i), []string{hxs(p)}, hxs(filepath.Clean(p)))
+		var ns []string
+		for k := 0; k < 1+rr.intn(5); k++ {
+			ns = append(ns, names[rr.intn(len(names))])
+		}
+		var hn []string
+		for _, x := range ns {
+			hn = append(hn, hxs(x))
+		}
+		o.corr("loadkey", fmt.Sprintf("k%d", i), []string{hxs(p), strings.Join(hn, "|")}, vloadKeyImpl(p, ns))
+		// Rel on two arbitrary paths
+		var sb2 strings.Builder
+		for k := 0; k < 1+rr.intn(7); k++ {
+			sb2.WriteString(pieces[rr.intn(len(pieces))])
+		}
+		q := sb2.String()
+		rel, err := filepath.Rel(p, q)
+		res := "err"
+		if err == nil {
+			res = hxs(rel)
+		}
+		o.corr("rel", fmt.Sprintf("r%d", i), []string{hxs(p), hxs(q)}, res)
+	}
+	o.stat("C12", map[string]interface{}{"path_cases": 3 * n})
+}
